@@ -11,6 +11,7 @@ RULE = ("generated parameter pytrees (nested dicts/lists, leaves of different sh
         "(non-commuting members, compared with a member-by-member fold over the user's nesting); Extend fills exactly the None leaves from the "
         "base tree and returns supplied leaves bit-identical; one evaluation = one generated tree x one transform family; non-trivial = tree "
         "with >=3 leaves of >=2 distinct shapes; distinct by tree/bounds digest x family")
+RULE += ' Built later: integer-typed bounds; log-space values down to -40; base trees that contain None leaves.'
 MIN_NONTRIVIAL = {"quick": 400, "thorough": 10000}
 DECIDING = ["roundtrips_checked", "chains_checked"]
 ASSUMPTIONS = ["float32: tolerance rtol 1e-5 plus 8 eps32 |offset|/scale for the normalised value", "Extend.inv raises under the installed JAX (None is no "
